@@ -994,7 +994,7 @@ fn child_body(run: &E1Run, isos: &[Vec<Arc<Iso>>], raw_fd: i32) -> RunReport {
         watchdog: Duration::from_secs(10),
     };
     let pool_dyn: Arc<dyn Pool + Send + Sync> = pool.clone();
-    let out = if run.ptrace.is_some() { crate::e5::execute_free(&spec, pool_dyn) } else { sched::execute(&spec, chooser, pool_dyn, &|_| Vec::new()) };
+    let out = if run.ptrace.is_some() { crate::e5::execute_free(&spec, pool_dyn, run.ptrace.as_ref().map(|p| p.warmup.as_slice()).unwrap_or(&[])) } else { sched::execute(&spec, chooser, pool_dyn, &|_| Vec::new()) };
     let _ = std::io::stdout().flush();
     let raw = String::from_utf8_lossy(&oracle::read_fd_all(raw_fd)).into_owned();
     let mut rep = RunReport::default();
@@ -1173,7 +1173,7 @@ fn exec_in_child_inner(run: &E1Run, isos: &[Vec<Arc<Iso>>], tinfo: &mut Option<c
                         rep.violations.push(Violation { property: p.into(), class: "process-died-during-run".into(), thread: 0, op_idx: 0, op: None, expected: "every call returns".into(), got: how.clone(), needs: "history-or-schedule".into() });
                     }
                 }
-                (_, _, true, _) => rep.stalled = Some("traced run did not finish within 30 s".into()),
+                (_, _, true, _) => rep.stalled = Some("traced run did not finish within its time limit".into()),
                 (_, _, _, e) => rep.stalled = Some(format!("tracer set-up failed: {}", e.unwrap_or_default())),
             }
             return rep;
